@@ -27,6 +27,8 @@ MALLOC_DEBUG = True
 def cases(tier, seed):
     for i in range(1400 if tier == "quick" else 30000):
         yield {"fam": "rand", "i": i}
+    for i in range(16 if tier == "quick" else 160):
+        yield {"fam": "special", "i": i}
 
 
 def setup(ctx):
@@ -51,7 +53,50 @@ def layouts(arr, r):
     return out
 
 
+def special(ctx, i):
+    """(a) large instances with nearly tied competing candidates under flips; (b) volumes of more than 32^3 voxels whose
+    instances touch two opposite faces, under padding"""
+    r = gen.rng(ctx.seed, "c10s", i)
+    if i % 2 == 0:
+        pred, refa = gen.near_tie_pair(ctx.seed, i // 2)
+        pred, refa = (pred != 0).astype(np.uint8), refa.astype(np.uint32)
+        refa = (refa != 0).astype(np.uint8) * np.where(refa == refa.max(), 2, 1).astype(np.uint8)  # two classes, touching
+        cfg = {"input": "SEMANTIC", "backend": "cc3d", "matcher": {"kind": "naive", "metric": ["IOU", "DSC"][(i // 2) % 2], "thr": 0.3, "m2o": False}, "metrics": ["DSC", "IOU", "RVD"], "global": ["DSC"]}
+        trans = [("flip", lambda a: a[::-1]), ("flip_copy", lambda a: np.ascontiguousarray(a[::-1])), ("pad", lambda a: np.pad(a, (3, 1)))]
+        mets = ["DSC", "IOU", "RVD"]
+    else:
+        n = 34
+        refa = np.zeros((n, n, n), dtype=np.uint8)
+        pred = np.zeros_like(refa)
+        ax = (i // 2) % 3
+        sl = [slice(10, 20)] * 3
+        sl[ax] = slice(None)  # a bar through the whole field of view along one axis
+        refa[tuple(sl)] = 1
+        sl2 = [slice(11, 22)] * 3
+        sl2[ax] = slice(None)
+        pred[tuple(sl2)] = 1
+        cfg = {"input": "MATCHED_INSTANCE", "matcher": None, "metrics": ["DSC", "IOU", "ASSD"], "global": ["ASSD"]}
+        trans = [("pad", lambda a: np.pad(a, [(2, 3)] * 3)), ("pad_one_side", lambda a: np.pad(a, [(0, 1), (1, 0), (0, 0)]))]
+        mets = ["DSC", "IOU", "ASSD"]
+    base = meta.run(cfg, pred, refa)
+    ctx.count("evaluations")
+    keys = ["num_ref_instances", "num_pred_instances", "tp", "fp", "fn", "rq", "sq", "sq_dsc", "pq"] + (["sq_assd", "global_bin_assd"] if "ASSD" in mets else ["sq_rvd", "global_bin_dsc"])
+    for name, fn in trans:
+        t = meta.run(cfg, fn(pred), fn(refa))
+        ctx.count("evaluations")
+        ctx.count("C10.judged")
+        ctx.count("f:C10.special")
+        d = meta.diff(base, t, metrics=mets, keys=keys)
+        if d is not None:
+            ctx.viol("result_changed_by_transformation", {"case": "near_tie" if i % 2 == 0 else "bar_through_volume", "transformation": name, "key": d, "shape": list(pred.shape), "cfg": cfg,
+                                                          "base": {k: base.get(k) for k in keys}, "transformed": {k: t.get(k) for k in keys} if "ERR" not in t else t},
+                     features={"input": cfg["input"], "transformation": name.split("_")[0], "key": d.split(":")[0], "special": True})
+    ctx.nontrivial("special", i)
+
+
 def run(case, ctx):
+    if case.get("fam") == "special":
+        return special(ctx, case["i"])
     i = case["i"]
     r = gen.rng(ctx.seed, "c10", i)
     it = ["UNMATCHED_INSTANCE", "SEMANTIC", "MATCHED_INSTANCE"][i % 3]
